@@ -2,7 +2,7 @@
   Per-mutator preservation lemmas: `MemOK` (every outcome, every plan) and `Sync` (every outcome except a crash,
   which `step` answers with `restart`).
 -/
-import Galaxy.Lemmas.IpamBasic
+import Galaxy.Lemmas.IpamWalk
 
 namespace Galaxy.Ipam
 open Tbl
